@@ -214,6 +214,11 @@ pub struct Case {
     pub twin: bool,
     /// step budget = budget_factor * calibrated steps (0: no calibration, absolute budget below)
     pub budget: u64,
+    /// Fallback for code under test that blocks on a synchronisation primitive the simulator does not own (a real
+    /// mutex held across a scheduling point stalls a cooperative scheduler although real threads would merely wait):
+    /// run this case with free-running OS threads, unscheduled. Set by the supervisor for stalled cases only.
+    #[serde(default)]
+    pub free_run: bool,
 }
 
 impl Case {
